@@ -442,6 +442,11 @@ def run(ctx):
                 ctx.violation('same-context:c-then-bfbs', 'the binary schema generated on a context that also generated the C files (all generators incl. sorter) '
                               'differs from the one of a fresh context or fails: C-then-bfbs=%s, bfbs-C-bfbs=%s (1 same bytes, 0 different, F failed, G C generation failed)' % (
                                   X['c_then_bfbs'], X['bfbs_c_bfbs']), rep)
+        if 'O' in L:
+            O = L['O'].split()
+            if O[0] != '0' or O[1] != '0' or O[3] != '1':
+                ctx.violation('outfile-path-differs', 'binary schema written through gen_outfile (twice, over an older larger file of that name): rc %s/%s, file size %s vs %d in memory, identical: %s' % (
+                    O[0], O[1], O[2], size, O[3]), rep)
         lp = L['L'].split()
         if lp[1] != '1':
             ctx.violation('length-prefix', 'length prefix wrong: requested=%d, first word %s, buffer size %d' % (p, lp[0], size), rep)
